@@ -641,22 +641,27 @@ func writeReplayTest(ld *loaded, pkgDir string, dir string) (string, error) {
 			fmt.Printf("VERIF-REPLAY %d NOHARNESS %s\n", i, c.Harness)
 			continue
 		}
-		verifTable = c.Inputs
-		verifTierN = c.Tier
-		verifFailMsg = ""
-		outcome := func() (out string) {
-			defer func() {
-				if r := recover(); r != nil {
-					if _, ok := r.(verifStop); ok {
-						out = "ASSERT " + verifFailMsg
-						return
+		// Go randomises map iteration order per range statement: a counterexample that depends on
+		// it may need several attempts to show natively
+		outcome := "OK"
+		for attempt := 0; attempt < 12 && outcome == "OK"; attempt++ {
+			cj, _ := json.Marshal(map[string]interface{}{"inputs": c.Inputs, "tier": c.Tier, "attempt": attempt, "case": i})
+			os.Setenv("VERIF_CASE", string(cj))
+			verifFailMsg = ""
+			outcome = func() (out string) {
+				defer func() {
+					if r := recover(); r != nil {
+						if vs, ok := r.(interface{ VerifMsg() string }); ok {
+							out = "ASSERT " + vs.VerifMsg()
+							return
+						}
+						out = fmt.Sprintf("PANIC %v", r)
 					}
-					out = fmt.Sprintf("PANIC %v", r)
-				}
+				}()
+				fn()
+				return "OK"
 			}()
-			fn()
-			return "OK"
-		}()
+		}
 		fmt.Printf("VERIF-REPLAY %d %s\n", i, outcome)
 	}
 }
